@@ -368,6 +368,25 @@ int process_start(pid_t *process,
 
     int redirect[] = { options.handle.in, options.handle.out,
                        options.handle.err };
+    int copy[] = { HANDLE_INVALID, HANDLE_INVALID, HANDLE_INVALID };
+
+    // A handle that is itself one of the standard streams (the parent's own
+    // stdout passed as `err.handle`, stderr redirected to an inherited stdout)
+    // might be overwritten by the `dup2` of an earlier stream, so we work on a
+    // copy of it.
+    for (int i = 0; i < (int) ARRAY_SIZE(redirect); i++) {
+      if (redirect[i] >= 0 && redirect[i] <= STDERR_FILENO &&
+          redirect[i] != i) {
+        r = fcntl(redirect[i], F_DUPFD_CLOEXEC, STDERR_FILENO + 1);
+        if (r < 0) {
+          r = -errno;
+          goto child;
+        }
+
+        copy[i] = r;
+        redirect[i] = r;
+      }
+    }
 
     for (int i = 0; i < (int) ARRAY_SIZE(redirect); i++) {
       // `i` corresponds to the standard stream we need to redirect.
@@ -378,16 +397,19 @@ int process_start(pid_t *process,
       }
 
       // Make sure we don't accidentally cloexec the standard streams of the
-      // child process when we're inheriting the parent standard streams. If we
-      // don't call `exec`, the caller is responsible for closing the redirect
-      // and exit handles.
-      if (redirect[i] != i) {
+      // child process. If we don't call `exec`, the caller is responsible for
+      // closing the redirect and exit handles.
+      if (redirect[i] > STDERR_FILENO) {
         // Make sure the pipe is closed when we call exec.
         r = handle_cloexec(redirect[i], true);
         if (r < 0) {
           goto child;
         }
       }
+    }
+
+    for (int i = 0; i < (int) ARRAY_SIZE(copy); i++) {
+      handle_destroy(copy[i]);
     }
 
     // Make sure the `exit` file descriptor is inherited.
